@@ -99,3 +99,13 @@ PROPS["C03"] = dict(
     modelled="sorter block cutting and block keys, objects.IndexBlockFromBytes/IndexBlock (as the invariant they establish), doctor.diagnoseCommit (observed)",
     assumptions=["row and key hashes are recomputed by the harness with meow over the string-list encoding"],
 )
+
+PROPS["C20"] = dict(
+    lean_modules=["WrglModel.Props.C20"],
+    quick_n=400, thorough_n=8000,
+    rule="Add/Flush/Has/reopen sequences (5..35 ops quick, ..85 thorough, then a full membership sweep before and after reopen) over 6..15 "
+         "hashes sharing first bytes (0x00 and 0xff included), batch sizes 1..8 and default, on the real HashSet over a temp file; the raw "
+         "file image is compared after every flush; non-trivial = a repeat within one batch or an insert after a flush; distinct = distinct (op, input)",
+    modelled="pkg/index: insertIndex, indexOf, HashSet.Add/Flush/Has, addToFanoutTable, NewHashSet; addToHashTable by its net effect",
+    assumptions=["the os.File behaves as a byte array (Seek/Read/Write)", "addToHashTable's in-place shifting is not modelled step by step: its result is compared with the model's file image after every flush"],
+)
